@@ -39,6 +39,11 @@ impl<'a> PrettyPrinter<'a> {
     }
 
     pub fn convert_pattern(&'a self, ctx: Context, pattern: Pattern<'a>) -> ArenaDoc<'a> {
+        #[cfg(typstyle_verif)]
+        crate::verif_hooks::convert(
+            crate::verif_hooks::Point::ConvertPattern,
+            pattern.to_untyped(),
+        );
         if let Some(res) = self.check_disabled(pattern.to_untyped()) {
             return res;
         }
